@@ -40,7 +40,12 @@ def L_at(e, i):
 
 def list_sort(kind):
     return {'bytes': SeqString, 'str': SeqString, 'box': SeqVal,
-            'int': SeqInt}[kind]
+            'int': SeqInt, 'rec': SeqInt}[kind]
+
+
+# lists of records (dicts with constant keys): the list holds record ids,
+# the fields live in an uninterpreted function of (id, flattened field name)
+RecField = z3.Function('RecField', IntSort, StringSort, Val)
 
 
 class Unsupported(Exception):
@@ -179,6 +184,14 @@ class VExc(V):
 
     def __repr__(self):
         return 'VExc(%s)' % self.cls.__name__
+
+
+class VRecId(V):
+    """Element of a list of records: fields via RecField(id, name)."""
+    tname = 'dict'
+
+    def __init__(self, e):
+        self.e = e
 
 
 class VAttrs(V):
